@@ -383,6 +383,59 @@ func Run(r *core.Run) {
 		r.Class("nonce-sweep")
 	})
 	r.Require("nonce-sweep", 1000)
+	// hash length limit sweep: the largest hash length a protocol allows, set to exactly the length of its multihashes, one more
+	// and the default - a limit is a largest allowed value, so a commitment or reveal value of exactly that length is well-formed
+	for _, code := range []uint64{18, 19} {
+		exact := len(ops.Commitment(keys.New("Ed25519", 4200), code))
+		for _, limit := range []int{exact, exact + 1, 100} {
+			p := ops.Proto()
+			p.MultihashAlgorithms = []uint{uint(code)}
+			p.MaxOperationHashLength = uint(limit)
+			parser := operationparser.New(p)
+			rec, upd, next, nextRec := keys.New("P-256", 4201), keys.New("Ed25519", 4202), keys.New("secp256k1", 4203), keys.New("P-384", 4204)
+			create := ops.ValidCreate(rec, upd, patch, code, nil)
+			suffix := ops.Suffix(create, code)
+			for _, c := range []struct {
+				name        string
+				req         ops.M
+				signer, nxt *keys.Key
+			}{
+				{"update", ops.ValidUpdate(suffix, upd, next, patch, code, ops.Window{}), upd, next},
+				{"recover", ops.ValidRecover(suffix, rec, nextRec, next, patch, code, nil, ops.Window{}), rec, nextRec},
+				{"deactivate", ops.ValidDeactivate(suffix, rec, code, ops.Window{}), rec, nil},
+			} {
+				c := c
+				b := ops.Bytes(c.req)
+				id := fmt.Sprintf("hash-length-limit/h%d/limit=%d/%s", code, limit, c.name)
+				r.Case(id, func() *core.Fail {
+					det := map[string]any{"op": string(b), "max_operation_hash_length": limit, "multihash_length": exact}
+					if _, err := parser.Parse("did:sidetree", ops.Bytes(create)); err != nil {
+						return &core.Fail{Key: id, What: "well-formed create refused: " + err.Error(), Detail: det}
+					}
+					rv, err := parser.GetRevealValue(b)
+					if err != nil {
+						return &core.Fail{Key: id, What: "GetRevealValue failed on a well-formed operation whose hashes have exactly the allowed length: " + err.Error(), Detail: det}
+					}
+					if cm, err := commitment.GetCommitmentFromRevealValue(rv); err != nil || cm != ops.Commitment(c.signer, code) {
+						return &core.Fail{Key: id, What: fmt.Sprintf("reveal value maps to commitment %q (%v), the signing key's commitment is %q", cm, err, ops.Commitment(c.signer, code)), Detail: det}
+					}
+					want := ""
+					if c.nxt != nil {
+						want = ops.Commitment(c.nxt, code)
+					}
+					if nc, err := parser.GetCommitment(b); err != nil || nc != want {
+						return &core.Fail{Key: id, What: fmt.Sprintf("parser reports next commitment %q (%v), expected %q", nc, err, want), Detail: det}
+					}
+					if _, err := parser.ParseOperation("did:sidetree", b, false); err != nil {
+						return &core.Fail{Key: id, What: "well-formed operation refused: " + err.Error(), Detail: det}
+					}
+					return nil
+				})
+				r.Observe("edge", string(b), fmt.Sprint(limit))
+				r.Class("hash-length-limit")
+			}
+		}
+	}
 	r.Sample(map[string]any{"kind": "chain", "sequence": "create,update,recover,update,deactivate", "key_types": typeAssign[3]})
 	r.Require("edge-u", 10)
 	r.Require("edge-r", 10)
